@@ -4,7 +4,7 @@ check run):  cd /verif && PYTHONPATH=/verif:/repo/src PSYCLONE_CONFIG=/repo/conf
 
 Every 1- and 2-statement program of the full statement alphabet that is
 admissible on all inputs is compiled (one file, one module per program) and run
-on every input; k, t, u and every element of a, b, c, q after the call are
+on every input; k, t, u and every element of a, b, c, q, d after the call are
 compared with E1's final store.  Any mismatch is a bug in E1 (or in the input
 construction), never a finding about PSyclone.
 """
@@ -38,7 +38,7 @@ def main(limit=None):
     nin = len(G.INPUTS)
     main_src += [
         "  integer :: n, m, k, i, j, iv", "  real :: t, u",
-        "  real :: a(0:4), b(0:4), c(0:4), q(0:4,0:4)",
+        "  real :: a(0:4), b(0:4), c(0:4), q(0:4,0:4), d(0:4), e(0:4)",
         f"  integer :: ns({nin}), ks({nin}), avs({nin})", f"  real :: ts({nin})",
         "  ns = (/" + ",".join(str(i[0]) for i in G.INPUTS) + "/)",
         "  ks = (/" + ",".join(str(i[1]) for i in G.INPUTS) + "/)",
@@ -51,12 +51,14 @@ def main(limit=None):
             "    do i = 0, 4", "      if (avs(iv) == 0) then",
             "        a(i) = (2*i+1)/2.0", "      else", "        a(i) = (11-2*i)/2.0",
             "      end if", "      b(i) = 10 + 2*i", "      c(i) = (-4*i-1)/4.0",
+            "      d(i) = -99.0", "      e(i) = (3*i+2)/2.0",
             "      do j = 0, 4", "        q(i,j) = (800 + 80*i + 8*j + 1)/8.0",
             "      end do", "    end do",
-            f"    call s_{idx}(n, m, k, t, u, a, b, c, q)",
+            f"    call s_{idx}(n, m, k, t, u, a, b, c, q, d, e)",
             "    write(*,'(I8,2ES24.15)') k, t, u",
             "    write(*,'(5ES24.15)') a", "    write(*,'(5ES24.15)') b",
-            "    write(*,'(5ES24.15)') c", "    write(*,'(5ES24.15)') q", "  end do"]
+            "    write(*,'(5ES24.15)') c", "    write(*,'(5ES24.15)') q",
+            "    write(*,'(5ES24.15)') d", "  end do"]
     main_src.append("end program main")
     work = runner.scratch_dir("c12gf")
     try:
@@ -76,14 +78,14 @@ def main(limit=None):
         tree = transcheck.parse(G.source(keys))
         for inp in G.INPUTS:
             words = []
-            for line in out[pos:pos + 9]:
+            for line in out[pos:pos + 10]:
                 words += line.split()
-            pos += 9
+            pos += 10
             args = G.make_args(inp)
             if equiv.run(tree, "s", args)[0] != "ok":
                 raise RuntimeError("admissibility changed")
             mine = [args[2].v, args[3].v, args[4].v] + \
-                [cell.v for arr in args[5:] for cell in arr.cells]
+                [cell.v for arr in args[5:10] for cell in arr.cells]
             theirs = [int(words[0])] + [float(w) for w in words[1:]]
             for one, two in zip(mine, theirs):
                 if one is I.POISON:
